@@ -230,7 +230,7 @@ def random_op(rng, model):
         t = rng.choice(["{o}={a}+{b}", "{o}={a}*{k}", "{o}=-{a}", "{o}+={a}", "{o}=ABS{{{a}}}", "{o}=D{{{a}}}",
                         "{o}=({a}+{b})*{k}", "{o}={a}-{b}*{k}", "{o}={a}", "{o}={k}", "{o}=I{{{a}}}+{b}",
                         "{o}=({a}-{b})*({b}+{k})", "{o}={a}+2*3", "{o}={a}*(1/2)+{b}", "{o}={b}-(4-1)*{k}",
-                        "{o}=(1+1)*(2+1)", "{o}=ABS{{{a}}}*(2*2)+D{{{b}}}"])
+                        "{o}=(1+1)*(2+1)", "{o}=ABS{{{a}}}*(2*2)+D{{{b}}}", "{o}=0", "{o}=2-2", "{o}={a}*0"])
         if "+=" in t and o not in model:
             t = "{o}={a}+{b}"
         return ("expr", t.format(o=o, a=i1, b=i2, k=kk))
@@ -316,7 +316,7 @@ def _seq_veq(A, B):
 # modelled over the logical names a, b, c; a NameProxy renders them at the library boundary.
 NAME_TRIPLES = [("a", "b", "c"), ("X", "Y", "Z"), ("T", "Idx", "P"), ("a1", "A", "a_b"), ("ab", "abc", "b"),
                 ("speed", "s", "sp"), ("id", "u", "d"), ("ele", "time", "elevation"), ("Timestamp", "ti", "IDX"),
-                ("v2", "V", "vv")]
+                ("v2", "V", "vv"), ("xy", "yz", "zt"), ("xyz", "ti", "idx2")]
 
 
 # --------------------------------------------------------------------------
@@ -397,6 +397,10 @@ class Runner:
             base = 1_700_000_000_000_000_000 + 1000 * self.counter
             return base + 1 if scalar else [base + 2 * i + 1 for i in range(self.n)]
         self._last_fresh_big = False
+        if self.counter % 7 == 3:
+            # special values that are regular values: 0, 0.0 (scalars), lists holding zeros
+            self.flags.add("zero_valued_write")
+            return (0 if self.counter % 2 else 0.0) if scalar else [0.0 if i % 2 == 0 else float(self.counter) for i in range(self.n)]
         base = 1000.0 * self.counter
         return base if scalar else [base + i + 1 for i in range(self.n)]
 
@@ -1026,7 +1030,7 @@ _FLOORS_EXTRA = {'monitors': {'decoy.unchanged': 50000, 'failed_expression.state
                               'anyop.returned_list_is_what_is_read': 3000,
                               'scale.table_consistent': 100},
                  'classes': {'shift_by_whole_turns': 500, 'expression_through_item_access': 2000, 'sibling_track': 1000,
-                             'less_usual_feature_names': 5000, 'expression_of_more_than_100_operations': 6}}
+                             'less_usual_feature_names': 5000, 'zero_valued_write': 5000, 'expression_of_more_than_100_operations': 6}}
 
 
 def floors(tier):
